@@ -33,7 +33,7 @@ def plan(tier, seed):
 def minimums(tier):
     return {"plid.queries": 3000, "plid.short_id_queries": 500, "bmcid.queries": 1000, "id.queries": 1000, "src.queries": 2000,
             "srcexclude.queries": 300, "found.hidden_or_nonserviceable": 1000, "notfound.queries": 300,
-            "bmcid.zero_queries": 40, "bmcid.queries_with_unopenable_entries": 300, "lookups.hex_display": 1000, "src.queries_with_edge_blanks": 100}
+            "bmcid.zero_queries": 40, "bmcid.queries_with_unopenable_entries": 300, "lookups.hex_display": 1000, "src.queries_with_edge_blanks": 100, "bmcid.queries_with_damaged_twin": 100}
 
 
 def forms(rng, v):
@@ -182,6 +182,23 @@ def run(spec, ctx):
                 check_single(ctx, out, rc, e, ents, "bmc-id", "--bmc-id %d (directory holds dangling links)" % n)
         for nm in links:
             os.unlink(os.path.join(d.root, nm))
+        # ... and a damaged copy of a PEL (intact headers, cut short behind them) that carries the same BMC id: the look-up
+        # displays "a PEL whose BMC event log id is N whenever one exists" - the good one, whichever file is met first
+        e = rng.choice(ents)
+        twins = []
+        cut = e.data[:max(100, len(e.data) - rng.choice([1, 5, 20]))]
+        if harness.decode(cut).kind != "doc":
+            for nm in ("0000_twin_a", "zzzz_twin_b", "%s_twin_c" % e.name[:4]):
+                if not os.path.lexists(os.path.join(d.root, nm)):
+                    with open(os.path.join(d.root, nm), "wb") as f:
+                        f.write(cut)
+                    twins.append(nm)
+            ctx.count("bmcid.queries_with_damaged_twin")
+            rc, out = cli(["--bmc-id", str(e.pel.bmcid)], "bmc-id")
+            if out is not None:
+                check_single(ctx, out, rc, e, ents, "bmc-id", "--bmc-id %d (damaged files carry the same id)" % e.pel.bmcid)
+            for nm in twins:
+                os.unlink(os.path.join(d.root, nm))
         # -i
         for e in ents + [None]:
             v = e.pel.eid if e else rng.randrange(1 << 32)
